@@ -1348,6 +1348,35 @@ func (st *relayState) judgeRequest(op *Op, in *sipwire.Msg, ems []*Emitted, srcP
 	e := ems[0]
 	eproto, eip, eport := emissionDest(e.E)
 	got := hostPort(eip, eport)
+	if op.Proto == "tcp" && eproto == "tcp" && e.E.ConnID == st.connOf[op.ID] && d.class != "backend" {
+		// The request was written back on the connection it arrived on. That is the
+		// registered way to the address its sender advertises (Via sent-by / received, rport);
+		// when the chosen next hop IS that address the statement does not say which
+		// connection to it must be used.
+		sender := inVias[0]
+		host, port := sender.Host, sender.EffPort()
+		if l.receivedSupport() {
+			host = op.SrcIP
+			if _, ok := sender.Param("rport"); ok {
+				port = srcPort
+			}
+		} else if rc, ok := sender.Param("received"); ok && rc.V != "" {
+			host = rc.V
+			if rp, ok := sender.Param("rport"); ok {
+				if n, err := strconv.Atoi(rp.V); err == nil {
+					port = n
+				}
+			}
+		}
+		if ip, ok := c.resolve(host); ok {
+			for _, h := range d.hosts {
+				if strings.TrimPrefix(h, "tcp|") == hostPort(ip, port) {
+					st.w.stat("dontcare:next-hop-is-the-sender's-advertised-address")
+					return
+				}
+			}
+		}
+	}
 	switch d.class {
 	case "route":
 		if eproto != d.proto || got != d.hosts[0] {
